@@ -683,12 +683,19 @@ namespace sim
                 TsanIgnore ign;
                 S().park_threads_at_start = gatedStart;
             }
-            Address addr(Ipv4::loopback(), Port(0));
-            // binding port 0 can fail for a moment when the machine is short of ephemeral ports (many executions
+            // a bind can fail for a moment when the machine is short of ephemeral ports (many executions
             // in parallel, closed connections lingering in TIME_WAIT): that is the environment's doing, so wait and
             // try again; a bind that keeps failing is a harness error, never a verdict on pistache
             for (int attempt = 0;; ++attempt)
             {
+                // The listener gets an explicit port below the kernel's ephemeral range, drawn from a per-process
+                // sequence: binding port 0 picks from the ephemeral range, where a port held by a TIME_WAIT socket is
+                // not handed out (not even with SO_REUSEADDR) - with hundreds of executions per second the range
+                // runs dry. An explicit port with SO_REUSEADDR binds whatever lingers there; a port taken by another
+                // harness process just makes this loop try the next one.
+                static unsigned seq = 0;
+                unsigned portNo     = 12000 + (unsigned(getpid()) * 131u + seq++ * 7u) % 18000u;
+                Address addr(Ipv4::loopback(), Port(static_cast<uint16_t>(portNo)));
                 try
                 {
                     ep = std::make_shared<Http::Endpoint>(addr);
@@ -700,9 +707,10 @@ namespace sim
                 catch (const std::exception& e)
                 {
                     ep.reset();
-                    if (attempt >= 200 || ng_count() > 0)
+                    if (attempt >= 400 || ng_count() > 0)
                         throw HarnessError { std::string("endpoint could not be started: ") + e.what() };
-                    usleep(50000);
+                    if (attempt > 20)
+                        usleep(20000);
                 }
             }
             if (gatedStart)
